@@ -76,6 +76,10 @@ type c16World struct {
 	ushape map[string]string // ungrouped metric name -> label names
 	gate   *c16Gate
 	fresh  int // counter for metric names never used before in this case
+	// what the generator of THIS case draws from (not used to judge answers): the groups (plain names, or
+	// names that differ only in surrounding blanks / letter case, an all-blank group) and label values
+	groups []string
+	vals   []string
 	run    *c16Runner // the text path's scratch directory and bash hook (c16text.go)
 	// operator world (c16text.go): the storage is the HookMetricStorage of an assembled ShellOperator
 	op     *shell_operator.ShellOperator
@@ -140,7 +144,7 @@ func (g *c16Gate) open() {
 }
 
 func newC16World(c *Case) *c16World {
-	w := &c16World{in: NewInterner(), c: c, owner: map[string]string{}, gfam: map[string]string{}, ushape: map[string]string{}}
+	w := &c16World{in: NewInterner(), c: c, owner: map[string]string{}, gfam: map[string]string{}, ushape: map[string]string{}, groups: c16Groups, vals: c16LabelVals}
 	w.ms = metricstorage.NewMetricStorage(context.Background(), "", true, log.NewNop())
 	w.gate = &c16Gate{inner: w.ms.Registry}
 	w.ms.Registerer = w.gate
@@ -149,6 +153,22 @@ func newC16World(c *Case) *c16World {
 	}
 	w.in.Id("hook") // the label name `hook` is id 1
 	return w
+}
+
+// c16PrefixTemplate is the placeholder a metric name may carry; the storage replaces its first occurrence
+// by its prefix. The IDENTITY of a metric (what the op lines and the scrape are compared on) is the
+// resolved name: `{PREFIX}x` and `x` are one metric under the empty prefix, two under the prefix `p_`.
+const c16PrefixTemplate = "{PREFIX}"
+
+// setPrefix gives the storage of the world a metrics prefix (production: app.PrometheusMetricsPrefix).
+func (w *c16World) setPrefix(p string) { w.ms.Prefix = p }
+
+// resolve is the harness's own reading of a metric name as a hook writes it (no call into the repo).
+func (w *c16World) resolve(name string) string {
+	if i := strings.Index(name, c16PrefixTemplate); i >= 0 {
+		return name[:i] + w.ms.Prefix + name[i+len(c16PrefixTemplate):]
+	}
+	return name
 }
 
 func (w *c16World) id(s string) int {
@@ -184,7 +204,7 @@ func (w *c16World) opLine(o c16Op) string {
 		b = 1
 	}
 	return fmt.Sprintf("op name=%d group=%d action=%s value=%s add=%s set=%s buckets=%d labels=%s",
-		w.id(o.Name), w.id(o.Group), dash(o.Action), optI(o.Value), optI(o.Add), optI(o.Set), b, lab)
+		w.id(w.resolve(o.Name)), w.id(o.Group), dash(o.Action), optI(o.Value), optI(o.Add), optI(o.Set), b, lab)
 }
 
 func halves(v float64) string {
@@ -426,6 +446,41 @@ var c16LabelVals = []string{"1", "2", "3"}
 
 const c16HookBit = 16
 
+// group pools whose members are DIFFERENT groups that a "sanitising" reader would merge (surrounding
+// blanks, an all-blank group, letter case, inner blanks), and label-value pools of the same kind.
+var c16GroupPools = [][]string{
+	{"ga", "ga ", " ga", " "},
+	{"pods", " pods ", "\tpods", "  "},
+	{"ga", "Ga", "GA", "gA"},
+	{"a b", "a  b", "ab", "a b "},
+	{"ga", "gb", " ", "\t"},
+}
+var c16ValPools = [][]string{
+	{"1", " 1", "1 "},
+	{"a", "A", "a "},
+	{"1", "01", "1.0"},
+}
+
+// styleWorld draws the prefix of the storage and the pools of the case.
+func (w *c16World) styleWorld(rng *Rng) {
+	if rng.Chance(40) {
+		w.setPrefix("p_")
+		w.c.Note("world:prefix-p_")
+	} else {
+		w.c.Note("world:prefix-empty")
+	}
+	if rng.Chance(35) {
+		w.groups = c16GroupPools[rng.Intn(len(c16GroupPools))]
+		w.c.Note("groups:near-equal-names")
+	} else {
+		w.c.Note("groups:plain")
+	}
+	if rng.Chance(20) {
+		w.vals = c16ValPools[rng.Intn(len(c16ValPools))]
+		w.c.Note("label-values:near-equal")
+	}
+}
+
 func (g *c16Gen) shape() int {
 	s := 0
 	for i := range c16LabelKeys {
@@ -446,7 +501,7 @@ func (g *c16Gen) labels(shape int) map[string]string {
 		if shape&(1<<i) == 0 {
 			continue
 		}
-		m[k] = PickOne(rng, c16LabelVals)
+		m[k] = PickOne(rng, g.w.vals)
 		if rng.Chance(10) {
 			m[k] = ""
 			g.w.c.Note("label:empty-value")
@@ -482,11 +537,18 @@ func (g *c16Gen) batch(hook string, pool []string) ([]c16Op, bool) {
 			if hot := map[bool]string{true: g.hotC, false: g.hotG}[isAdd]; hot != "" && rng.Chance(60) {
 				name = hot
 			}
+			// the spelling of the name: with the storage's `{PREFIX}` placeholder in front (25%); both
+			// spellings of one name occur in one case (one metric under the empty prefix, two otherwise)
+			if rng.Chance(25) {
+				name = c16PrefixTemplate + name
+				w.c.Note("name:with-{PREFIX}")
+			}
+			rname := w.resolve(name)
 			var lab map[string]string
 			okp := false
 			for try := 0; try < 6 && !okp; try++ {
 				lab = g.labels(g.shape())
-				key := labelKey(name, lab, hook)
+				key := labelKey(rname, lab, hook)
 				o1, live := w.owner[key]
 				o2, pend := pending[key]
 				okp = (!live || o1 == grp) && (!pend || o2 == grp)
@@ -494,7 +556,7 @@ func (g *c16Gen) batch(hook string, pool []string) ([]c16Op, bool) {
 			if !okp {
 				continue
 			}
-			pending[labelKey(name, lab, hook)] = grp
+			pending[labelKey(rname, lab, hook)] = grp
 			o := c16Op{Name: name, Group: grp, Labels: lab}
 			v := rng.Range(-4, 20)
 			if isAdd {
@@ -525,6 +587,13 @@ func (g *c16Gen) batch(hook string, pool []string) ([]c16Op, bool) {
 			if rng.Chance(30) {
 				name = []string{"ug2", "uc2_total", "uh2"}[kind]
 			}
+			// both spellings of an ungrouped name, too (one metric under the empty prefix)
+			if rng.Chance(25) {
+				name = c16PrefixTemplate + name
+				w.c.Note("name:with-{PREFIX}")
+			}
+			uname := name
+			name = w.resolve(name) // the label-name shape belongs to the metric, not to its spelling
 			shape, seen := w.ushape[name]
 			var lab map[string]string
 			if seen {
@@ -535,7 +604,7 @@ func (g *c16Gen) batch(hook string, pool []string) ([]c16Op, bool) {
 				w.ushape[name] = fmt.Sprint(s)
 				lab = g.labels(s)
 			}
-			o := c16Op{Name: name, Labels: lab}
+			o := c16Op{Name: uname, Labels: lab}
 			switch kind {
 			case 0:
 				o.Action, o.Value = "set", ip(rng.Range(-4, 20))
@@ -610,13 +679,13 @@ func (g *c16Gen) commit(hook string, ops []c16Op) {
 			mine = append(mine, o)
 		}
 		for _, o := range mine {
-			w.owner[labelKey(o.Name, o.Labels, hook)] = grp
+			w.owner[labelKey(w.resolve(o.Name), o.Labels, hook)] = grp
 		}
 	}
 }
 
 func runC16(r *Run) {
-	r.Rule = "histories of 1..8 steps by 4 hooks through the real operation parser + MetricStorage.SendBatch on a private registry, observed by Gatherer.Gather() after every step. A step is one batch, or (22%) a CONCURRENT step: 2..4 batches of different hooks, each with its own group(s), sent by one goroutine each in a random start order while a gated Registerer (installed as MetricStorage.Registerer and as the vault's registerer) holds every first registration of a metric open until all calls were started; 70% of the concurrent steps let all their hooks report the same never-used grouped gauge and counter names. A concurrent step is judged against EVERY linearisation of its batches through the reference registry (return value of each call + scrape after all returned). Batches of 1..6 operations mixing up to 2 of 4 groups with ungrouped operations; metric names shared between groups; label sets over the names a, b, x, y (two sorting before `hook`, two after; each present with 30%) with ONE pool of 3 values for all names (equal values under different names), 10% explicit empty values, a `hook` label that must be overridden (15%); action/value and shortcut (`add`/`set`) forms, integer and half-fractional values, explicit expire at any position, 14% of the batches carry one invalid operation (10 kinds) at a random position. Generators stay outside the recorded finding classes (same series written by two groups, name used grouped and ungrouped, ungrouped label-name change, one name with two types), which are replayed as separate known cases. Non-trivial: >= 2 batches, at least one grouped and one valid batch; distinct = distinct op-line sequences. TEXT steps (30% of the sequential steps): the batch is spelled as the text of the metrics file a hook leaves behind (member order, blanks between all tokens, key case, six number spellings per value, \\u escapes, unknown members with nested brackets in strings, nulls for absent fields, duplicate keys; documents joined with or without blanks) and, in 35% of them, damaged in the shapes of harness/c04out.go (cut off inside the last document, stray closers before/between/after documents, trailing garbage, wrong JSON types per field, bad tokens, separators, top-level non-objects, an operation validation rejects; 4%: blank file); the text goes the way a hook's file goes: MetricOperationsFromFile + SendBatch with the hook label unless reading failed (what Hook.Run + handleRunHook do), 10% through a real bash hook and Hook.Run, and in operator worlds (4% of the cases: an assembled ShellOperator with a real hook manager and four bash hooks, its HookMetricStorage is the registry of the case) through the real queue handler taskHandler -> taskHandleHookRun -> handleRunHook. Whether a text is acceptable is decided by the Lean driver from the bytes (HookOutput.metricsOk); a rejected text must fail the execution and leave the scrape unchanged, an accepted one goes through the reference registry."
+	r.Rule = "histories of 1..8 steps by 4 hooks through the real operation parser + MetricStorage.SendBatch on a private registry, observed by Gatherer.Gather() after every step. A step is one batch, or (22%) a CONCURRENT step: 2..4 batches of different hooks, each with its own group(s), sent by one goroutine each in a random start order while a gated Registerer (installed as MetricStorage.Registerer and as the vault's registerer) holds every first registration of a metric open until all calls were started; 70% of the concurrent steps let all their hooks report the same never-used grouped gauge and counter names. A concurrent step is judged against EVERY linearisation of its batches through the reference registry (return value of each call + scrape after all returned). Batches of 1..6 operations mixing up to 2 of 4 groups with ungrouped operations; metric names shared between groups; label sets over the names a, b, x, y (two sorting before `hook`, two after; each present with 30%) with ONE pool of 3 values for all names (equal values under different names), 10% explicit empty values, a `hook` label that must be overridden (15%); action/value and shortcut (`add`/`set`) forms, integer and half-fractional values, explicit expire at any position, 14% of the batches carry one invalid operation (10 kinds) at a random position. Generators stay outside the recorded finding classes (same series written by two groups, name used grouped and ungrouped, ungrouped label-name change, one name with two types), which are replayed as separate known cases. Non-trivial: >= 2 batches, at least one grouped and one valid batch; distinct = distinct op-line sequences. TEXT steps (30% of the sequential steps): the batch is spelled as the text of the metrics file a hook leaves behind (member order, blanks between all tokens, key case, six number spellings per value, \\u escapes, unknown members with nested brackets in strings, nulls for absent fields, duplicate keys; documents joined with or without blanks) and, in 35% of them, damaged in the shapes of harness/c04out.go (cut off inside the last document, stray closers before/between/after documents, trailing garbage, wrong JSON types per field, bad tokens, separators, top-level non-objects, an operation validation rejects; 4%: blank file); the text goes the way a hook's file goes: MetricOperationsFromFile + SendBatch with the hook label unless reading failed (what Hook.Run + handleRunHook do), 10% through a real bash hook and Hook.Run, and in operator worlds (4% of the cases: an assembled ShellOperator with a real hook manager and four bash hooks, its HookMetricStorage is the registry of the case) through the real queue handler taskHandler -> taskHandleHookRun -> handleRunHook. Whether a text is acceptable is decided by the Lean driver from the bytes (HookOutput.metricsOk); a rejected text must fail the execution and leave the scrape unchanged, an accepted one goes through the reference registry. NAMES: 25% of the metric names (grouped and ungrouped, hot names of concurrent steps included) are spelled with the storage's {PREFIX} placeholder, 40% of the worlds give the storage the prefix p_ (else empty): both spellings of one metric occur in one history; op lines and scrape are compared on the RESOLVED name (the harness's own reading of the placeholder). GROUPS: 35% of the cases draw their groups from a pool of near-equal names that are different groups (surrounding blanks, tab, an all-blank group, letter case, inner blanks), 20% draw label values from such a pool ('1', ' 1', '1 ' / 'a', 'A' / '1', '01', '1.0')."
 	// ---- corpus: the repaired defects (must now hold) ----
 	r.One(0, func(c *Case, _ *Rng) {
 		c.Desc = "corpus: grouped {\"add\":1} shortcut counts once (was applied twice)"
@@ -812,6 +881,62 @@ func runC16(r *Run) {
 		w.send("h3", []c16Op{{Name: "uh", Action: "observe", Value: ip(4), Buckets: true, Labels: map[string]string{"x": "1"}}})
 	})
 
+	// ---- corpus of the sixth wave ----
+	for i, prefix := range []string{"", "p_"} {
+		prefix := prefix
+		r.One(17+i, func(c *Case, _ *Rng) {
+			c.Desc = fmt.Sprintf("corpus: grouped metrics named with the {PREFIX} placeholder (storage prefix %q): two series of one name in one batch, add + add, the next batch of the group replaces them; the same name spelled without the placeholder", prefix)
+			c.Nontrivial = true
+			w := newC16World(c)
+			w.setPrefix(prefix)
+			x := func(v string) map[string]string { return map[string]string{"x": v} }
+			w.send("h1", []c16Op{{Name: "{PREFIX}gg1", Group: "ga", Action: "set", Value: ip(10), Labels: x("1")},
+				{Name: "{PREFIX}gg1", Group: "ga", Action: "set", Value: ip(14), Labels: x("2")},
+				{Name: "{PREFIX}gc1", Group: "ga", Add: ip(6)}, {Name: "{PREFIX}gc1", Group: "ga", Action: "add", Value: ip(8)}})
+			w.send("h1", []c16Op{{Name: "{PREFIX}gg1", Group: "ga", Action: "set", Value: ip(2), Labels: x("3")},
+				{Name: "gg1", Group: "ga", Action: "set", Value: ip(4), Labels: x("4")}})
+			w.send("h2", []c16Op{{Name: "{PREFIX}gg1", Group: "gb", Set: ip(6), Labels: x("1")}, {Name: "{PREFIX}ug2", Set: ip(3)}, {Name: "{PREFIX}ug2", Set: ip(5)}})
+			w.send("h1", []c16Op{{Group: "ga", Action: "expire"}})
+		})
+	}
+	r.One(20, func(c *Case, _ *Rng) {
+		c.Desc = "corpus: one UNGROUPED metric in two spellings ({PREFIX}ug9 and ug9 under the empty prefix): gauge, counter, histogram; every operation updates the one series (was: the second spelling registered the name again, the panic was recovered and the operation dropped silently)"
+		c.Nontrivial = true
+		w := newC16World(c)
+		w.send("h1", []c16Op{{Name: "{PREFIX}ug9", Action: "set", Value: ip(2)}})
+		w.send("h1", []c16Op{{Name: "ug9", Action: "set", Value: ip(6)}})
+		w.send("h2", []c16Op{{Name: "uc9_total", Add: ip(3)}, {Name: "{PREFIX}uc9_total", Add: ip(4)}, {Name: "{PREFIX}uh9", Action: "observe", Value: ip(2), Buckets: true}, {Name: "uh9", Action: "observe", Value: ip(4), Buckets: true}})
+		w.send("h1", []c16Op{{Name: "{PREFIX}ug9", Action: "set", Value: ip(8)}})
+	})
+	r.One(19, func(c *Case, _ *Rng) {
+		c.Desc = "corpus text: groups that differ only in surrounding blanks / letter case are different groups, an all-blank group is a group (replaced, expirable), label values with surrounding blanks are different series"
+		c.Nontrivial = true
+		w := newC16World(c)
+		x := func(v string) map[string]string { return map[string]string{"x": v} }
+		txt := func(ops []c16Op) string {
+			t := ""
+			for _, o := range ops {
+				t += o.jsonLine() + "\n"
+			}
+			return t
+		}
+		for _, st := range []struct {
+			hook string
+			ops  []c16Op
+		}{
+			{"h1", []c16Op{{Name: "gg1", Group: "pods", Action: "set", Value: ip(2), Labels: x("1")}}},
+			{"h2", []c16Op{{Name: "gg1", Group: "pods ", Action: "set", Value: ip(4), Labels: x("2")}}},
+			{"h2", []c16Op{{Name: "gg1", Group: "Pods", Action: "set", Value: ip(6), Labels: x("3")}, {Name: "gg1", Group: "Pods", Action: "set", Value: ip(6), Labels: x(" 3")}}},
+			{"h1", []c16Op{{Group: "pods", Action: "expire"}}},
+			{"h1", []c16Op{{Name: "gg2", Group: " ", Action: "set", Value: ip(8), Labels: x("1")}}},
+			{"h1", []c16Op{{Name: "gg2", Group: " ", Action: "set", Value: ip(10), Labels: x("2")}}},
+			{"h1", []c16Op{{Group: " ", Action: "expire"}}},
+			{"h2", []c16Op{{Group: "\tpods ", Action: "expire"}, {Group: "Pods", Action: "expire"}}},
+		} {
+			w.sendText(r, st.hook, st.ops, txt(st.ops), "file")
+		}
+	})
+
 	r.Cases(100, r.N(4000, 60000), 0, func(c *Case, rng *Rng) {
 		var w *c16World
 		hooksList := c16Hooks
@@ -828,6 +953,7 @@ func runC16(r *Run) {
 		} else {
 			w = newC16World(c)
 		}
+		w.styleWorld(rng)
 		g := &c16Gen{w: w, rng: rng}
 		nb := rng.Range(1, 8)
 		valid, grouped, conc, texts := 0, 0, 0, 0
@@ -836,7 +962,7 @@ func runC16(r *Run) {
 				// concurrent step: 2..4 hooks, each with its own group(s), send at the same time
 				k := rng.Range(2, 4)
 				hooks := append([]string{}, hooksList...)
-				groups := append([]string{}, c16Groups...)
+				groups := append([]string{}, w.groups...)
 				rng.Shuffle(len(hooks), func(i, j int) { hooks[i], hooks[j] = hooks[j], hooks[i] })
 				rng.Shuffle(len(groups), func(i, j int) { groups[i], groups[j] = groups[j], groups[i] })
 				if rng.Chance(70) {
@@ -879,7 +1005,7 @@ func runC16(r *Run) {
 				continue
 			}
 			hook := PickOne(rng, hooksList)
-			ops, invalid := g.batch(hook, c16Groups)
+			ops, invalid := g.batch(hook, w.groups)
 			if rng.Chance(30) {
 				// text step: the batch as the text of the hook's metrics file
 				if rng.Chance(4) {
